@@ -263,10 +263,12 @@ ShapeOf(prof, N) == LET m == MergeF(SelectF(prof, CandF(prof, N)))
 RECURSIVE CleanR(_)
 CleanR(shapes) ==
   LET gone == {k \in DOMAIN shapes : shapes[k] = {}}
+      goneRef(k) == IsShape(k) /\ KeyOfShape(k) \in gone
+      \* a disjunction forgets the alternatives that are gone and disappears with its last one
+      prune(s) == IF s.ks = {} THEN s ELSE [s EXCEPT !.ks = {k \in s.ks : ~goneRef(k)}]
   IN IF gone = {} \/ ~cfg.removeEmpty THEN shapes
-     ELSE IF \E k \in DOMAIN shapes : \E s \in shapes[k] : s.ks # {}
-          THEN [k \in DOMAIN shapes |-> {CRASH}]                        \* st_type of a choice statement raises
-     ELSE CleanR([k \in DOMAIN shapes \ gone |-> {s \in shapes[k] : ~(IsShape(s.k) /\ KeyOfShape(s.k) \in gone)}])
+     ELSE CleanR([k \in DOMAIN shapes \ gone |->
+                    {prune(s) : s \in {x \in shapes[k] : IF x.ks = {} THEN ~goneRef(x.k) ELSE \E a \in x.ks : ~goneRef(a)}}])
 \* ---- the whole pipeline on the current doc / cfg
 ProfKeys(inst) == OpKeys(inst) \cup (IF cfg.mode = "classes" THEN ToSet(cfg.targets) ELSE {})
 ProfsOf(inst) == [k \in ProfKeys(inst) |-> ProfOf(inst, k)]
